@@ -22,14 +22,14 @@ ASSUMPTIONS = [
 ]
 SIZES = {"quick": 1500, "thorough": 10000}
 
-TN = ["x", "y", "t", "lst", "d"]
+TN = ["x", "y", "t", "lst", "d", "z"]
 _tn = st.sampled_from(TN)
 
 
 @st.composite
 def _link(draw):
     n = draw(_tn)
-    if n in ("x", "y") and draw(st.integers(0, 4)) == 0:
+    if n in ("x", "y", "z") and draw(st.integers(0, 4)) == 0:
         return [n, draw(st.one_of(rw.skip_ref, rw.div_ref))]
     return [n, draw(rw.ref_for(n))]
 
@@ -42,6 +42,10 @@ def _op(draw, depth=0):
         if depth == 0 and draw(st.integers(0, 3)) == 0:
             # the linked parameter is made constant on this instance only: its link goes on feeding it
             return ["inst_const", draw(st.sampled_from(["x", "y", "t"]))]
+        if depth == 0 and draw(st.integers(0, 3)) == 0:
+            # a callback of the triggered parameter overrides another (possibly linked) parameter with a plain value
+            n = draw(st.sampled_from(["x", "y", "t"]))
+            return ["trigger_cb", n, draw(st.sampled_from([m for m in ("x", "y", "t") if m != n])), draw(st.integers(0, 9))]
         return ["trigger", draw(st.lists(_tn, min_size=1, max_size=2, unique=True)), draw(st.booleans())]
     if kind == "src":
         pn = draw(st.sampled_from(["v", "w", "s"]))
@@ -61,7 +65,7 @@ def _op(draw, depth=0):
     if draw(st.booleans()):
         # a second name in the same call, and the ways update() accepts its arguments
         n2 = draw(st.sampled_from([m for m in ("x", "y", "t") if m != n]))
-        op += [n2, draw(st.integers(0, 9)), draw(st.sampled_from(["kw", "mapping", "mixed", "mixed_rev"]))]
+        op += [n2, draw(st.integers(0, 9)), draw(st.sampled_from(["kw", "mapping", "mixed", "mixed_rev", "pairs", "iterator"]))]
     return op
 
 
@@ -77,7 +81,14 @@ def _case(draw):
         ctor = [l for l in ctor if l[0] != n] + [[n, ["rxdiv", si, pi, sj, pj]]]
         at = draw(st.integers(0, len(ops)))
         ops[at:at] = [["src", sj, pj, 0], ["src", sj, pj, draw(st.integers(1, 9))], ["src", si, pi, draw(st.integers(10, 60))]]
-    return {"ctor": ctor, "ops": ops}
+    case = {"ctor": ctor, "ops": ops}
+    if ctor and draw(st.integers(0, 3)) == 0:
+        # an on_init method of the target (part of construction, run once the keywords are in place) overrides a parameter
+        # or moves a source
+        case["boot"] = list(draw(st.one_of(
+            st.tuples(st.just("override"), st.sampled_from([l[0] for l in ctor]), st.integers(0, 9)),
+            st.tuples(st.just("src"), st.integers(0, 1), st.sampled_from(["v", "w"]), st.integers(-20, 60)))))
+    return case
 
 
 def strategy(tier):
@@ -85,7 +96,7 @@ def strategy(tier):
 
 
 def _plain(n, k):
-    return {"x": k, "y": k, "t": f"p{k}", "lst": [k], "d": {"p": k}}[n]
+    return {"x": k, "y": k, "z": k, "t": f"p{k}", "lst": [k], "d": {"p": k}}[n]
 
 
 def _valid(n, v):
@@ -93,14 +104,24 @@ def _valid(n, v):
         return False          # the reference cannot be evaluated right now: like an invalid value, the source update raises
     if v is rw.SKIP:
         return True           # a skipped evaluation assigns nothing, so it cannot be invalid
-    if n in ("x", "y"):
+    if n in ("x", "y", "z"):
         return isinstance(v, (int, float)) and -1000 <= v <= 1000
     return True
 
 
 def execute(case):
     res = Result()
-    S, T = rw.make_classes()
+    boot = case.get("boot")
+    booted = []
+
+    def boot_fn(obj):
+        booted.append(1)
+        if boot[0] == "override":
+            setattr(obj, boot[1], _plain(boot[1], boot[2]))
+        else:
+            setattr(srcs[boot[1]], boot[2], boot[3])
+
+    S, T = rw.make_classes(boot_fn if boot else None)
     srcs = [S(), S()]
     mv = {(i, p): getattr(srcs[i], p) for i in (0, 1) for p in ("v", "w", "s")}
     links = {}      # name -> (closure, deps)
@@ -114,7 +135,29 @@ def execute(case):
         links[n] = (fn, deps)
         if spec[0] in ("nlist", "ndict"):
             marks.add("nested_reference")
+    if boot and boot[0] == "src" and any(not _valid(n, fn({**{(i, p): getattr(srcs[i], p) for i in (0, 1) for p in ("v", "w", "s")},
+                                                            (boot[1], boot[2]): boot[3]})) for n, (fn, _d) in links.items()):
+        boot = None           # (would make a linked value invalid during construction: not this clause's subject)
+        S, T = rw.make_classes(None)
+        srcs = [S(), S()]
+        links, kw = {}, {}
+        for n, spec in case["ctor"]:
+            ref, fn, deps = rw.build_ref(spec, srcs)
+            kw[n] = ref
+            links[n] = (fn, deps)
     tgt = T(**kw)
+    if boot:
+        if not booted:
+            res.fail("C08.harness", "the on_init method did not run")
+        marks.add("on_init_method_" + boot[0])
+        if boot[0] == "override":
+            links.pop(boot[1], None)
+            plain[boot[1]] = _plain(boot[1], boot[2])
+        else:
+            mv[(boot[1], boot[2])] = boot[3]
+            for n, (fn, deps) in links.items():
+                if fn(mv) is rw.SKIP:
+                    stale.add(n)
     hist = {"relinked": False, "after_relink_src_updates": 0}
 
     def census(tag):
@@ -231,6 +274,22 @@ def execute(case):
                 tgt.param.trigger(*op[1])
             if any(n in links for n in op[1]):
                 marks.add("trigger_on_linked_parameter")
+        elif k == "trigger_cb":
+            n, m = op[1], op[2]
+            if n in stale or m in iconst:
+                return None
+            v = _plain(m, op[3])
+            w = tgt.param.watch(lambda ev: setattr(tgt, m, v), n)
+            try:
+                tgt.param.trigger(n)
+            finally:
+                tgt.param.unwatch(w)
+            if m in links:
+                hist["relinked"] = True
+                marks.add("override_of_linked_by_callback_during_trigger")
+            links.pop(m, None)
+            stale.discard(m)
+            plain[m] = v
         elif k == "override":
             n = op[1]
             v = _plain(n, op[2])
@@ -253,6 +312,10 @@ def execute(case):
                 cm = tgt.param.update(**dict(pairs))
             elif form == "mapping":
                 cm = tgt.param.update(dict(pairs))
+            elif form == "pairs":
+                cm = tgt.param.update(list(pairs))              # any iterable of (name, value) pairs, like dict.update
+            elif form == "iterator":
+                cm = tgt.param.update(iter(list(pairs)))
             elif form == "mixed":
                 cm = tgt.param.update(dict(pairs[:1]), **dict(pairs[1:]))
             else:
